@@ -416,6 +416,23 @@ class Evaluator:
                 if isinstance(r, list):
                     r = tuple(r)
                 return r
+        # big-endian integer <-> bytes conversions of concrete values
+        if fname == 'int.from_bytes' and len(targs) == 2 and \
+                isinstance(targs[0], bytes) and targs[1] in ('big', 'little'):
+            return int.from_bytes(targs[0], targs[1])
+        if isinstance(e.func, ast.Attribute) and e.func.attr == 'to_bytes' \
+                and len(targs) == 2 and isinstance(targs[0], int) and \
+                targs[1] in ('big', 'little'):
+            try:
+                recv = recv_val if recv_done else self.ev(e.func.value)
+            except NotEvaluable:
+                recv = None
+            recv_done, recv_val = True, recv
+            if isinstance(recv, int) and not isinstance(recv, bool):
+                try:
+                    return recv.to_bytes(targs[0], targs[1])
+                except OverflowError:
+                    raise _Raise('OverflowError', e)
         # mutable list values supplied by the rule (e.g. an argument list
         # consumed with pop(0)) are updated in place and traced
         if isinstance(e.func, ast.Attribute) and \
